@@ -49,6 +49,26 @@ def src_case(pipe, items, **kw):
     return d
 
 
+def feedback_cases(rng, pipes, n, items=None):
+    """Re-entrant delivery: the subscriber pushes the next source item from inside its on_next
+    (a feedback loop through the source Subject), whenever the output it receives was caused
+    by an item.  Only pipelines in which the output for an item is the last thing every
+    operator does for it (one output at most per item): there the boundary logs are those of
+    the same events delivered one after the other, and the contracts apply unchanged."""
+    cases = []
+    for pipe in pipes:
+        for _ in range(n):
+            if items is None:
+                lts = rand_lifetimes(rng, rng.choice([1, 2]), 8, vals=range(5))
+            else:
+                lts = [(idx, items(rng)) for idx in rng.sample([0, 1, 4], rng.choice([1, 2]))]
+            cases.append(mux_case(pipe, G.schedule(rng, lts), feedback='end'))
+    return cases
+
+
+FB_DONE = {'op': 'identity', 'fb': 'd'}     # pushes the next item when a key completes here
+
+
 def shared_inner_cases(rng, n, mk, items=None):
     """two composite operators in sequence that are given the same inner pipeline (the same
     python list in the untapped run), built from the same operator objects"""
@@ -159,6 +179,12 @@ def cases_c05(rng, thorough):
         cases.append(mux_case([G.op_roll(w, s, [])], G.key_stream(0, G.ints([i % 7 for i in range(n)]))))
     cases += shared_inner_cases(rng, 24 if thorough else 8,
                                 lambda r, inn: G.op_roll(r.randint(1, 3), r.randint(1, 3), inn))
+    # a feedback loop that pushes the next item when a (tumbling) window completes
+    for w in (1, 2, 3):
+        for inn in ([FB_DONE], [FB_DONE, G.op_simple('to_list')]):
+            for _ in range(6 if thorough else 2):
+                lts = rand_lifetimes(rng, rng.choice([1, 2]), 9, vals=range(5))
+                cases.append(mux_case([G.op_roll(w, w, inn)], G.schedule(rng, lts)))
     return cases
 
 
@@ -211,6 +237,8 @@ def cases_c04(rng, thorough):
                                              rng.choice(variants))], G.ints(xs)))
     cases += shared_inner_cases(rng, 24 if thorough else 8,
                                 lambda r, inn: G.op_group_by('modc', r.choice([2, 3]), inn))
+    cases += feedback_cases(rng, [[G.op_group_by('modc', 2, [])], [G.op_group_by('id', 0, [_scan_add()])],
+                                  [G.op_group_by('modc', 3, [G.op_simple('lag', n=1)])]], 8 if thorough else 3)
     return cases
 
 
@@ -266,6 +294,8 @@ def cases_c06(rng, thorough):
         cases.append(src_case([G.op_split('divc', 2, [G.op_simple('to_list')], 'str')], G.ints(xs)))
     cases += shared_inner_cases(rng, 24 if thorough else 8,
                                 lambda r, inn: G.op_split('divc', r.choice([2, 3]), inn))
+    cases += feedback_cases(rng, [[G.op_split('divc', 2, [])], [G.op_split('modc', 2, [_scan_add()])],
+                                  [G.op_split('divc', 3, [], 'tuple')]], 8 if thorough else 3)
     return cases
 
 
@@ -323,6 +353,10 @@ def cases_c07(rng, thorough):
         rng, 24 if thorough else 8,
         lambda r, inn: G.op_time_split(r.choice([-1, 2, 3]), r.choice([-1, 1, 2]), True, r.random() < 0.5, inn),
         items=lambda r: ts_items([(r.choice([0, 1, 1, 2, 3]), r.random() < 0.3) for _ in range(r.randint(0, 8))]))
+    cases += feedback_cases(
+        rng, [[G.op_time_split(2, -1, False, True, [])], [G.op_time_split(-1, 1, False, True, [])],
+              [G.op_time_split(3, 2, False, True, [{'op': 'count', 'reduce': False}])]], 8 if thorough else 3,
+        items=lambda r: ts_items([(r.choice([0, 1, 1, 2, 3]), False) for _ in range(r.randint(0, 8))]))
     return cases
 
 
@@ -398,6 +432,13 @@ def cases_c08(rng, thorough):
         t = G.op_tee(rng.choice(joins), [pre[b] + shared for b in range(nb)])
         lts = rand_lifetimes(rng, rng.choice([1, 2]), 6, vals=range(-1, 4), reuse=0.4)
         cases.append(mux_case([t], G.schedule(rng, lts), share_ops=True))
+    # re-entrant delivery: zip of branches that give one output per item (the tuple is the
+    # last thing the tee_map does for an item)
+    cases += feedback_cases(rng, [
+        [G.op_tee('zip', [[G.op_map('addc', 1)], [_scan_add()]])],
+        [G.op_tee('zip', [[], [{'op': 'count', 'reduce': False}], [G.op_simple('lag', n=1)]])],
+        [G.op_group_by('modc', 2, [G.op_tee('zip', [[G.op_map('mulc', 2)], []])])],
+    ], 10 if thorough else 4)
     return cases
 
 
@@ -490,6 +531,12 @@ def cases_c09(rng, thorough):
                                  lambda inn: G.op_split('divc', 2, inn)])
             lts = rand_lifetimes(rng, 2, 7, vals=range(4))
             cases.append(mux_case([parent([op])], G.schedule(rng, lts)))
+        # re-entrant delivery (the state is written before the running value is emitted)
+        if op['op'] != 'dist' and not (op['op'] == 'mean' and op['reduce']):
+            cases += feedback_cases(rng, [[op]], 4 if thorough else 1)
+    cases += feedback_cases(rng, [[_scan_add(), G.op_simple('lag', n=1)],
+                                  [G.op_map('modc', 2), G.op_simple('duc', f=fn('id')), {'op': 'count', 'reduce': False}]],
+                            8 if thorough else 3)
     return cases
 
 
@@ -556,6 +603,11 @@ def cases_c10(rng, thorough):
                    for idx in rng.sample([0, 1, 7], 2)]
             cases.append(mux_case([op], G.schedule(rng, lts)))
         cases.append(src_case([op], [rng.choice(vals) for _ in range(rng.randint(0, 30))]))
+        # re-entrant delivery; pad_start / start_with emit several items for the first one
+        if op['op'] not in ('pad_start', 'start_with', 'pad_end'):
+            for _ in range(4 if thorough else 2):
+                lts = [(idx, [rng.choice(vals) for _ in range(rng.randint(1, 7))]) for idx in rng.sample([0, 1, 5], 2)]
+                cases.append(mux_case([op], G.schedule(rng, lts), feedback='end'))
     return cases
 
 
